@@ -70,6 +70,9 @@ def stop_exit(ctx, kind, result):
     active = ctx.spec_bool(f'old({EN}.ghost_sys_state) not in ["Stopped", "Restarting"]')
     ok = "safe" in evs and "hw-write" in evs[evs.index("safe"):]
     ctx.check_w("stop-of-an-active-run-writes-the-safe-state", z3.Implies(active, z3.BoolVal(ok)), lambda m: {"events_in_order": evs}, "postcondition")
+    # cancelling the running commands may rewrite outputs (Pause.cancel restores the pre-pause values): the safe state must be applied afterwards
+    late = "safe" in evs and "cancel-all" in evs and evs.index("cancel-all") < len(evs) - 1 - evs[::-1].index("safe")
+    ctx.check_w("safe-state-is-applied-after-the-commands-were-cancelled", z3.Implies(active, z3.BoolVal(late)), lambda m: {"events_in_order": evs}, "postcondition")
 
 
 def _variant(cls, calls, on_exit=None):
@@ -78,7 +81,14 @@ def _variant(cls, calls, on_exit=None):
                     raises=base.raises, loops=base.loops, on_yield=base.on_yield, on_exit=on_exit, options=base.options)
 
 
-stop = _variant("StopEngineCommand", {"e._apply_safe_state": safe_then, "e.write_process_image": explicit_write}, stop_exit)
+def cancel_all(ctx, args, kwargs):
+    """e.cancel_all_commands(...): cancelling commands may rewrite outputs (a cancelled timed Pause restores its snapshot)"""
+    ctx.ghost.setdefault("events", []).append("cancel-all")
+    return ctx.none()
+
+
+cancel_all.modifies = []
+stop = _variant("StopEngineCommand", {"e._apply_safe_state": safe_then, "e.write_process_image": explicit_write, "e.cancel_all_commands": cancel_all}, stop_exit)
 pause = _variant("PauseEngineCommand", {"e._apply_safe_state": safe_then})
 CONTRACTS = [run, stop, pause]
 TARGETS = [c.key for c in CONTRACTS]
